@@ -66,9 +66,9 @@ Print Assumptions C08_behaves_as_reference.
 
 Example C08_example :
   derive (DStruct false SContainer true
-            [{| f_ty := TUint 1; f_skip_ser := false; f_skip_de := false; f_with := false; f_nattrs := 0 |};
-             {| f_ty := TList (TUint 1); f_skip_ser := true; f_skip_de := true; f_with := false; f_nattrs := 1 |};
-             {| f_ty := TUint 2; f_skip_ser := false; f_skip_de := false; f_with := true; f_nattrs := 1 |}])
+            [{| f_ty := TUint 1; f_skip_ser := false; f_skip_de := false; f_with := None; f_nattrs := 0 |};
+             {| f_ty := TList (TUint 1); f_skip_ser := true; f_skip_de := true; f_with := None; f_nattrs := 1 |};
+             {| f_ty := TUint 2; f_skip_ser := false; f_skip_de := false; f_with := Some (TLegacyOpt (TUint 2)); f_nattrs := 1 |}])
   = Some (TContainer true [TUint 1; TLegacyOpt (TUint 2)], TContainer true [TUint 1; TLegacyOpt (TUint 2)]) /\
   derive (DEnum false EUnion []) = None /\ derive (DEnum false ETag (repeat [] 129)) = None /\
   derive (DEnum false EAbsent [[TUint 1]]) = None.
